@@ -153,6 +153,14 @@ def verifyEventSignatures (row : VGen.VersionRow) (e : Event) (senderDomain : Ex
     if verifierFails then .error (errRej "verifier")
     else if rs.all valid then .ok () else .error (errRej "signature")
 
+/-- Model of `VerifyAllEventSignatures` (the entry point of `CheckStateResponse`, `CheckSendJoinResponse` and
+    `EventsLoader.LoadAndVerify`): one `VerifyEventSignatures` per event, the verdicts in the order of the events.
+    `sd e` is what the sender lookup answers for `e`; the verifier is asked per event, so `valid` and
+    `verifierFails` may depend on the event whose requests are being answered. -/
+def verifyAllEventSignatures (row : VGen.VersionRow) (es : List Event) (sd : Event → Except Err (Option Bytes))
+    (valid : Event → Request → Bool) (verifierFails : Event → Bool) : List (Except Err Unit) :=
+  es.map (fun e => verifyEventSignatures row e (sd e) (valid e) (verifierFails e))
+
 /-! ## The pseudo-ID room version (org.matrix.msc4014)
 
 The sender ID (and an invite's state key) is itself an ed25519 public key: the event is verified against
